@@ -1135,6 +1135,11 @@ def _simplify(t, ctor=None):
             m = ctor(n[1][1])
             if m is not None and n[2] < len(m) and m[n[2]] is not None and m[n[2]] < len(n[1][3]):
                 return n[1][3][m[n[2]]]
+        if k == "index" and n[1][0] == "agg" and n[1][1] == "array" and isinstance(n[2], tuple) and n[2] and n[2][0] == "const" and isinstance(n[2][1], int) and not isinstance(n[2][1], bool):
+            ops = n[1][2]
+            j = len(ops) - n[2][1] if (len(n[2]) > 2 and n[2][2]) else n[2][1]
+            if 0 <= j < len(ops):
+                return ops[j]                                   # an element of an array just built (`let [a, b, c] = helper()`)
         if k in ("payload", "errpayload"):
             vo = variant_of(n[1])
             if vo is not None and n[1][2]:
